@@ -129,7 +129,8 @@ def workload(name, rng, params, length=None, d=None):
     d = d or n_features(name, rng)
     nb = length or int(rng.integers(8, 24))
     if name == "NNDVI":
-        return gen.batch_sequence(rng, nb, d, size=(8, 30), shift_p=0.4, dup_p=0.2)
+        # k_nn <= 5 needs at least 5 distinct pooled points: no integer-valued or constant-column batches here
+        return gen.batch_sequence(rng, nb, d, size=(8, 30), shift_p=0.4, dup_p=0.2, integer_p=0.0, const_p=0.0)
     return gen.batch_sequence(rng, nb, d, size=(8, 70), shift_p=0.35)
 
 
